@@ -111,6 +111,9 @@ def sub_design(ctx):
     # coded with and without connection losses, and the repaired design (startInfoDownloaders after every closePeer) -
     # and liveness (C13.live) in the two modes in which it is expected to hold
     ctx.tlc_mc("MC_Metadata", "MC_Metadata.cfg", timeout=900)
+    # arrival order and index labels: 3 blocks (two of equal size), queue lengths 1..3, honest peers answering in any order,
+    # "swap" liars (right payloads under exchanged indexes): safety and liveness
+    ctx.tlc_mc("MC_Metadata", "MC_Metadata_order.cfg", timeout=900)
     if not ctx.quick():
         # 3 peers: safety as coded (duplicates accepted or refused), liveness as coded without losses, repaired with losses
         ctx.tlc_mc("MC_Metadata", "MC_Metadata_big.cfg", timeout=2400)
@@ -283,24 +286,44 @@ def pick_e2e(ctx, cases, n):
     core  <<liar, honest>> with one slot and a late honest peer - the liar holds the only slot when the honest peer
           shows up, for EVERY liar policy (each way of losing a slot must hand it on: C13.live);
     stall vectors whose slot holders all leave without the ut_metadata handler (the listed finding);
+    order arrival order / index labels: honest peers that answer the pipelined requests in reverse order (ord = 1), alone
+          and behind every kind of liar, and the "swap" liar (genuine payloads in genuine order, two equal-size blocks
+          carrying each other's index) on metadata of >= 3 blocks - both layouts (lay);
+    cap   a peer announcing more than MaxMetadataSize ("over", "huge") next to other ut_metadata peers with a free slot
+          (ParallelMetadataDownloads = 2): every later event that re-runs the peer selection - another peer's extension
+          handshake, a reject, a closed liar - must pass the oversized peer by (C13.cap at every selection, not once);
     priv  private info dictionaries; cover = at least one scenario per policy; the rest is a seeded sample."""
     rnd = random.Random(ctx.seed)
     for i, c in enumerate(cases):
         c["id"] = i
-    core, stall, priv, rest = [], [], [], []
+    core, stall, priv, rest, order, order2, cap, cap3 = [], [], [], [], [], [], [], []
     for c in cases:
         pols = c["pols"]
-        if len(pols) == 2 and pols[1] == "honest" and c["par"] == 1 and c["late"] == 1 and c["nb"] == 2:
+        c.setdefault("ord", 0)
+        c.setdefault("lay", 0)
+        if c["ord"] == 1 or ("swap" in pols and c["nb"] >= 3):
+            if len(pols) == 1 or (c["par"] == 1 and "swap" in pols):
+                order.append(c)          # always replayed
+            else:
+                order2.append(c)         # <<liar, honest>> with a reordering honest peer: seeded sample (thorough: all)
+        elif len(pols) == 2 and pols[1] == "honest" and c["par"] == 1 and c["late"] == 1 and c["nb"] == 2:
             core.append(c)
+        elif len(pols) == 2 and c["par"] == 2 and any(p in ("over", "huge") for p in pols) and c["nb"] == 2:
+            cap.append(c)
+        elif len(pols) == 3 and c["par"] == 2 and any(p in ("over", "huge") for p in pols[:2]):
+            cap3.append(c)
         elif c["late"] == 1 and "honest" in pols and all(p in NO_RESTART for p in pols[:c["par"]]):
             stall.append(c)
         elif c["priv"] == 1 and pols[0] in ("honest", "total", "forge", "garbage"):
             priv.append(c)
         else:
             rest.append(c)
-    for l in (stall, priv, rest):
+    for l in (stall, priv, rest, order2, cap, cap3):
         rnd.shuffle(l)
-    chosen = core + stall[:max(2, n // 25)] + priv[:max(3, n // 20)]
+    cap.sort(key=lambda c: "honest" not in c["pols"])        # (stable) the ones with an honest second peer first
+    cap3.sort(key=lambda c: not any(p in ("reject", "garbage", "drop", "stall") for p in c["pols"][:2]))
+    chosen = (core + order + order2[:(8 if ctx.quick() else len(order2))] + cap[:(10 if ctx.quick() else len(cap))]
+              + cap3[:(6 if ctx.quick() else 60)] + stall[:max(2, n // 25)] + priv[:max(3, n // 20)])
     seen = set(p for c in chosen for p in c["pols"])
     for c in rest:                      # one scenario per policy at least
         if any(p not in seen for p in c["pols"]):
@@ -333,9 +356,13 @@ def e2e_sig(evs, tag):
     # the peer that was asked last holds the slot that was handed on last (the order in which the scripted peers NOTICE
     # that they were closed says nothing about the order in which the client closed them)
     last_asked = pol[asked[-1] - 1] if asked else "none"
-    return ("e2e tag=%s pols=%s par=%d private=%s honest_asked=%d askers_alive=%d stalled=%d left=%s last_asked=%s"
-            % (tag, ",".join(pol), init["par"], str(init["private"]).lower(), int(any(p in asked for p in honest)),
-               len(askers_alive), len(stalled), ",".join(left) or "none", last_asked))
+    sig = ("e2e tag=%s pols=%s par=%d private=%s honest_asked=%d askers_alive=%d stalled=%d left=%s last_asked=%s"
+           % (tag, ",".join(pol), init["par"], str(init["private"]).lower(), int(any(p in asked for p in honest)),
+              len(askers_alive), len(stalled), ",".join(left) or "none", last_asked))
+    if init.get("ord") or init.get("lay"):      # the order / layout axes (absent = as before: listed findings keep matching)
+        moved = sum(1 for e in evs if e["op"] == "PeerData" and e["cls"] == "moved")
+        sig += " ord=%d lay=%d nb=%d moved=%d" % (init.get("ord", 0), init.get("lay", 0), (init["tsize"] + 16383) // 16384, moved)
+    return sig
 
 
 def is_known(ctx, tag, sig):
@@ -363,7 +390,7 @@ def live_text(evs):
 
 
 def sub_e2e(ctx):
-    cases = pick_e2e(ctx, ctx.gen["e2e"], ctx.pick(70, 900))
+    cases = pick_e2e(ctx, ctx.gen["e2e"], ctx.pick(100, 900))
     if ctx.cex_scenario:
         c = dict(ctx.cex_scenario)
         c["id"] = 100000
@@ -377,7 +404,19 @@ def sub_e2e(ctx):
         if end["op"] != "End":
             continue
         c = ctx.e2e_byid.get(end.get("id"), {})
-        ctx.count_case(("e2e", tuple(evs[0]["pol"]), evs[0]["par"], c.get("late"), c.get("nb"), evs[0]["private"]), True)
+        ctx.count_case(("e2e", tuple(evs[0]["pol"]), evs[0]["par"], c.get("late"), c.get("nb"), evs[0]["private"],
+                        c.get("ord", 0), c.get("lay", 0)), True)
+        # order axis actually exercised: data messages that arrived in another order than the index order / under a moved index
+        seq = collections.defaultdict(list)
+        for e in evs:
+            if e["op"] == "PeerData":
+                seq[e["p"]].append(e["i"])
+                if e["cls"] == "moved":
+                    ctx.extra.setdefault("observations", {}).setdefault("e2e_moved_blocks_sent", 0)
+                    ctx.extra["observations"]["e2e_moved_blocks_sent"] += 1
+        if any(evs[0]["pol"][p - 1] == "honest" and q != sorted(q) for p, q in seq.items()):
+            ctx.extra.setdefault("observations", {}).setdefault("e2e_honest_out_of_order_scenarios", 0)
+            ctx.extra["observations"]["e2e_honest_out_of_order_scenarios"] += 1
         ctx.oblig("C13.cap", sum(1 for e in evs if e["op"] == "PeerReq"))
         ctx.oblig("C13.adopt", end["adopted"])
         if "honest" in evs[0]["pol"]:
@@ -445,7 +484,8 @@ def run(ctx):
     ctx.level = "model_checking"
     ctx.cov["rule"] = ("cases = block-delivery histories of one InfoDownloader (distinct sequences of call, argument classes and "
                        "results), magnet parameter tuples x direction (parse / String->New / export), end-to-end scenarios "
-                       "(policy vector, ParallelMetadataDownloads, schedule class, metadata blocks, private flag); all are non-trivial "
+                       "(policy vector, ParallelMetadataDownloads, schedule class, metadata blocks, private flag, answer order of the "
+                       "honest peers, info layout); all are non-trivial "
                        "except histories without any delivery")
     ctx.assumptions += ["hash abstraction in the design model: assembled bytes are good iff the size is the true size and every block "
                         "holds the honest bytes (the trace level uses real SHA-1)",
